@@ -162,15 +162,16 @@ def script_of(kind, texts):
     pre, loop = [], []
     for i, t in enumerate(texts):
         name = f"s{i:03d}"
-        handler = f"k{i:03d}" if kind == "button" else None
-        if handler:
-            pre += [f"def {handler}():", f'    mon.write("click {i}")']
+        # every declaration slot has its own on_click handler: the one that runs tells which declaration the poll was built from
+        if kind == "button":
+            for slot in sorted({it[1] for it in t["setup"] + t["loop"] if it[0] == "D"}):
+                pre += [f"def k{i:03d}_{slot}():", f'    mon.write("click {i} {slot}")']
         pre.append(f'mon.write("##t {i}")')
         loop.append(f'    mon.write("##t {i}")')
         for region, items, ind in ((pre, t["setup"], ""), (loop, t["loop"], "    ")):
             for it in items:
                 if it[0] == "D":
-                    region.append(ind + decl_src(kind, name, i, t["slots"][it[1]], handler))
+                    region.append(ind + decl_src(kind, name, i, t["slots"][it[1]], f"k{i:03d}_{it[1]}" if kind == "button" else None))
                 elif it[0] == "U":
                     region.append(f"{ind}mon.write({name}.{CALL[kind]}())")
                 elif it[0] == "F":
@@ -315,7 +316,7 @@ def result_of(kind, tx, k, setup, passes):
     for ph in passes:
         ks, vs, bad = observe(kind, k, tx, ph["chunks"][k], ph["head"])
         drv = [int(e.split(" ")[2]) for e in ph["head"] if e.startswith("DR ") and 30 + 4 * k <= int(e.split(" ")[1]) < 34 + 4 * k]
-        clicks = sum(1 for e in ph["head"] if e == f"S click {k}")
+        clicks = [int(e.split(" ")[3]) for e in ph["head"] if e.startswith(f"S click {k} ")]
         res["passes"].append((ks, vs, drv, clicks))
         res["problems"] += bad
     res["index_in_sketch"] = k
@@ -423,9 +424,14 @@ def judge(kind, text, res, idx):
         prev = own[-1] if own else None
         for k, (keys, vals, drv, clicks) in enumerate(res["passes"]):
             want = 0 if prev is None else int(sig[k] == 1 and prev == 0)
-            if clicks != want:
-                F.append(("click-edge", f"pass {k}: on_click ran {clicks} times; sampled signal of pin {polled}: start-up "
-                          f"{'sample ' + str(own[-1]) if own else 'not sampled on this pin'}, passes {sig} -> {want} expected", want, clicks))
+            if len(clicks) != want:
+                F.append(("click-edge", f"pass {k}: on_click ran {len(clicks)} times; sampled signal of pin {polled}: start-up "
+                          f"{'sample ' + str(own[-1]) if own else 'not sampled on this pin'}, passes {sig} -> {want} expected", want, len(clicks)))
+                break
+            bound = sorted(set(passes[k]))
+            if clicks and [clicks[0]] != bound:
+                F.append(("click-handler", f"pass {k}: the on_click handler of declaration #{clicks[0]} of the name ran; the Button the name is bound to "
+                          f"while loop() runs is declaration #{bound} (its handler must run)", bound, clicks))
                 break
             prev = sig[k]
     return F
